@@ -17,6 +17,16 @@ def yaml_modules(project):
                     yield kind, m, path
 
 
+def default_context(project):
+    """the YAML dict of the context named `default` (it need not be the first one written, nor be in the first document)"""
+    for path, docs in project["files"].items():
+        for doc in docs:
+            for c in doc.get("contexts") or []:
+                if c.get("name") == "default":
+                    return c
+    return project["files"]["laze-project.yml"][0]["contexts"][0]
+
+
 def deps_of(mod):
     """dump-format deps ['h', n] ... of a dumped module"""
     return mod.get("selects", [])
